@@ -1,0 +1,17 @@
+//go:build verif
+
+// Contracts for deductive verification (comment-only; compiled only with -tags verif).
+package traceinfo
+
+// ---- C19 / C09: the per-request statistics are empty again after Reset: no event of the previous request, no
+// error, no sizes (the level is configuration and stays).
+//@ func httpStats.Reset(h)
+//@   props C19, C09
+//@   requires h != nil
+//@   modifies *
+//@   panics
+//@   top-ensures h.err == nil && h.panicErr == nil && h.recvSize == 0 && h.sendSize == 0 && len(h.eventMap) == old(len(h.eventMap))
+//@   top-ensures forall(k, 0, len(h.eventMap), h.eventMap[k] == nil)
+//@   loop 0:
+//@     invariant h.err == nil && h.panicErr == nil && h.recvSize == 0 && h.sendSize == 0 && sameSlice(h.eventMap, old(h.eventMap))
+//@     invariant forall(k, 0, rangeindex + 1, h.eventMap[k] == nil)
